@@ -378,7 +378,7 @@ def run(ctx, prj: Project):
             ctx.info(f"{rid}: schema extraction not applicable to this form of the writer/reader ({e}); R6 (evaluated round trip) decides")
             ctx.floors.pop(rid, None)
         new = ctx.violations[before:]
-        if new and rid in ("R1", "R2", "R4") and not any(v.rule == "R6" for v in ctx.violations):
+        if new and not any(v.rule == "R6" for v in ctx.violations):
             # the textual reading of the writer/reader disagrees with the evaluated round trip, which passed on a report
             # whose every string needs escaping and whose every key is read back: the reading is at fault, not the code
             del ctx.violations[before:]
@@ -456,8 +456,45 @@ def rule_R6_roundtrip(ctx, prj) -> bool:
                 if d1 != d2:
                     ctx.viol("R6", "roundtrip/rewrite", wfi.site(), f"{case}: writing the re-read report gives another document: {first_difference(d1, d2)}")
                     continue
-                ctx.ok("R6", wfi.site(), f"{case}: pretty/compact valid and equal, re-read report equal, re-written document equal up to timestamp "
+                # the same text read again (and after get_report_version) gives the same report: nothing of a previous parse is reused
+                try:
+                    grv = prj.maybe_func("codelimit.common.report.ReportReader:ReportReader.get_report_version")
+                    if grv is not None:
+                        v0 = lab.it.call(grv, [texts["pretty"]], {})
+                        if v0 != version:
+                            ctx.viol("R6", "get_report_version", grv.site(), f"{case}: get_report_version gives {v0!r} for a document written with version {version!r}")
+                            continue
+                    again = lab.read(texts["pretty"])
+                    third = lab.read(texts["pretty"])
+                except PyRaise as e:
+                    ctx.viol("R6", "from_json/second-read-raises", rfi.site(e.node) if e.node is not None else rfi.site(),
+                             f"{case}: reading the same document text a second time in one process raises {e.name}: the parsed document is cached and was modified by the first read")
+                    continue
+                d = first_difference(lab.snapshot(back), lab.snapshot(third))
+                if d:
+                    ctx.viol("R6", "from_json/reads-differ", rfi.site(), f"{case}: reading the same text again gives another report: {d[:200]}")
+                    continue
+                ctx.ok("R6", wfi.site(), f"{case}: pretty/compact valid and equal, re-read report equal (also when read repeatedly), re-written document equal up to timestamp "
                                          f"({len(texts['pretty'])} characters, {lab.it.steps} interpreter steps)")
+        # restoration without fallback to the running tool's values (only when the round trip itself is in order)
+        lab = ReportLab(prj)
+        rep = lab.sample(True, "0.0.1-other")
+        cases = () if any(v.rule == "R6" for v in ctx.violations) else (("a document of another version", lambda d: d, "0.0.1-other"), ("a document without a version key", lambda d: {k: v for k, v in d.items() if k != "version"}, None))
+        doc = json.loads(lab.write(rep, True)) if cases else {}
+        for case, mut, want in cases + ():
+            try:
+                back = lab.read(json.dumps(mut(dict(doc))))
+            except PyRaise as e:
+                ctx.viol("R6", "from_json/raises", rfi.site(e.node) if e.node is not None else rfi.site(), f"reading {case} raises {e.name}")
+                continue
+            got = back.fields.get("version")
+            if got != want:
+                ctx.viol("R6", "from_json/version", rfi.site(), f"reading {case} gives a report with version {got!r}; required {want!r}: the re-read report carries the running tool's value "
+                         f"(this also disables the version guard of the scan cache)")
+            elif back.fields.get("uuid") != rep.fields.get("uuid"):
+                ctx.viol("R6", "from_json/uuid", rfi.site(), f"reading {case} gives the identifier {back.fields.get('uuid')!r}; the document says {rep.fields.get('uuid')!r}")
+            else:
+                ctx.ok("R6", rfi.site(), f"{case}: version {want!r} and the identifier restored as written")
     except Unknown as e:
         ctx.info(f"round trip not evaluable ({e}); structural rules decide")
         ctx.rule("R6", "round trip not evaluable by the interpreter: structural rules R1-R5 decide", floor=0)
